@@ -82,6 +82,12 @@ class CallMixin:
                 for (vs, kw), s in self.ev_args(e, st):
                     yield from self.apply_contract(c, vs, kw, s, e)
                 return
+            if q == 'object.__setattr__' and len(e.args) == 3 and isinstance(e.args[1], ast.Constant) and isinstance(e.args[1].value, str):
+                # frozen dataclass initialisation: object.__setattr__(obj, 'name', value) is a plain attribute store
+                for (o, v), s in self.ev_many([e.args[0], e.args[2]], st):
+                    self.setattr(o, e.args[1].value, v, s, e)
+                    yield SV(NONE, NONEV), s
+                return
             if isinstance(f.value, ast.Name) and f.value.id in self.reg.classes and f.value.id not in st.env:
                 c = self.reg.find_method(f.value.id, f.attr)
                 if c is not None:
